@@ -57,6 +57,12 @@ impl SearchTimer {
     /// # Returns
     /// `true` if time limit exceeded, `false` otherwise
     pub fn should_stop(&self) -> bool {
+        #[cfg(flounder_verif)]
+        if let Some(limit) = verif::node_limit() {
+            // deterministic deadline expressed in nodes instead of wall-clock time
+            return self.nodes_searched >= limit;
+        }
+
         if let (Some(start), Some(limit)) = (self.start_time, self.time_limit) {
             start.elapsed() >= limit
         } else {
@@ -161,6 +167,25 @@ impl SearchTimer {
         } else {
             None
         }
+    }
+}
+
+/// Verification hook (compiled only with `--cfg flounder_verif`): a deadline expressed in nodes,
+/// so that every point at which a wall-clock deadline could fall can be enumerated.
+#[cfg(flounder_verif)]
+pub mod verif {
+    use std::cell::Cell;
+
+    thread_local! {
+        static NODE_LIMIT: Cell<Option<u64>> = Cell::new(None);
+    }
+
+    pub fn set_node_limit(limit: Option<u64>) {
+        NODE_LIMIT.with(|l| l.set(limit));
+    }
+
+    pub fn node_limit() -> Option<u64> {
+        NODE_LIMIT.with(|l| l.get())
     }
 }
 
